@@ -78,6 +78,17 @@ func (f *failoverStatus) report(ctx context.Context, witness string) *status.Sta
 	return nil
 }
 
+// retainWitnesses drops the witnesses for which keep returns false.
+func (f *failoverStatus) retainWitnesses(keep func(witness string) bool) {
+	f.mu.Lock()
+	defer f.mu.Unlock()
+	for witness := range f.witnesses {
+		if !keep(witness) {
+			delete(f.witnesses, witness)
+		}
+	}
+}
+
 // cancel stops the expiration timer, if there is one.
 func (f *failoverStatus) cancel() {
 	f.mu.Lock()
